@@ -184,7 +184,7 @@ fn judge(ctx: &mut Ctx, text: &str, tokens: Option<&[&str]>, base: &Snap, is: &p
 }
 
 fn random_token(r: &mut Rng, instr: &[String]) -> String {
-    match r.below(17) {
+    match r.below(18) {
         0 => r.pick(&["2147483647", "-2147483648", "2147483648", "-0", "+7", "007", "1_000"]).to_string(),
         1 => r.pick(&["NaN", "inf", "-inf", "1e39", "-0.0", "1.5", ".5", "5.", "1e-50", "infinity", "nan", "0x10"]).to_string(),
         2 => r.pick(&["TRUE", "FALSE", "true", "False"]).to_string(),
@@ -202,6 +202,40 @@ fn random_token(r: &mut Rng, instr: &[String]) -> String {
         10 => {
             let n = 1 + r.below(12);
             (0..n).map(|_| char::from_u32(33 + r.below(94) as u32).unwrap()).filter(|c| *c != '(' && *c != ')').collect::<String>() + "z"
+        }
+        13 => {
+            // a VALID vector literal with ONE edit (a character inserted, deleted, doubled or replaced,
+            // most often a separator or a bracket, anywhere including both ends): almost always
+            // malformed, and then to be dropped
+            let mut lit: Vec<char> = match r.below(3) {
+                0 => format!("INT[{}]", (0..1 + r.below(3)).map(|_| gen::int(r, Vals::Small).to_string()).collect::<Vec<_>>().join(",")),
+                1 => format!("FLOAT[{}]", (0..1 + r.below(3)).map(|_| format!("{:?}", gen::grid_float(r))).collect::<Vec<_>>().join(",")),
+                _ => format!("BOOL[{}]", (0..1 + r.below(3)).map(|_| *r.pick(&["1", "0", "true", "false"])).collect::<Vec<_>>().join(",")),
+            }
+            .chars()
+            .collect();
+            let c = *r.pick(&[',', ',', ',', '[', ']', ' ', '-', '.', 'x', '1']);
+            // positions biased to the ends and to the separators
+            let pos = match r.below(4) {
+                0 => lit.len() - 1,
+                1 => lit.len(),
+                2 => lit.iter().position(|x| *x == '[').unwrap_or(0) + 1,
+                _ => r.below(lit.len() + 1),
+            };
+            match r.below(4) {
+                0 | 1 => lit.insert(pos.min(lit.len()), c),
+                2 => {
+                    if pos < lit.len() {
+                        lit.remove(pos);
+                    }
+                }
+                _ => {
+                    if pos < lit.len() {
+                        lit[pos] = c;
+                    }
+                }
+            }
+            lit.into_iter().filter(|x| !x.is_whitespace()).collect()
         }
         12 => {
             // decimal literals just beside the MIDPOINT of two neighbouring f32 values, written with 25-40
